@@ -21,7 +21,7 @@ func init() { Register(c11{}) }
 
 func (c11) Name() string { return "c11" }
 func (c11) Rule() string {
-	return "seeded histories of 2..6 operations (Load(root_i), LoadFromContent(root_i,text), external rewrite / creation / deletion of a file followed by InvalidateFile or ClearCache, ClearCache, SetLimits) on ONE shared include.Loader over a generated include graph of 2..5 files (relative/./absolute/~/glob forms, cycles, diamonds, chains longer than the depth limit, files above the size limit) on the simulated disk; include depth limit default or 1..4, size limit default or small; after every load a fresh loader with the same limits on the same disk must return equal Files, FileOrder, syntax trees and errors. Concurrent class (a quarter of the runs): a Load is in flight as a scheduled task, preempted at every lock and disk call, while another task rewrites a file and invalidates it (or changes the limits, or clears the cache); once both are done a further load on the shared loader must equal a fresh loader. Non-trivial: at least two loads and at least one load that hit the cache on a file that itself has includes, or an invalidation between two loads, or an invalidation that landed inside a load. Distinct: hash of (graph shape, limits, operation sequence, interleaving)."
+	return "seeded histories of 2..6 operations (Load(root_i), LoadFromContent(root_i,text), external rewrite / creation / deletion of a file followed by InvalidateFile or ClearCache, ClearCache, SetLimits, a load hit by one one-shot disk fault (enoent, eio, torn read, stat-then-delete, stat-small-then-grow; torn/deleted/grown files are invalidated afterwards) whose own result is not judged but which must not poison the cache) on ONE shared include.Loader over a generated include graph of 2..5 files (relative/./absolute/~/glob forms, cycles, diamonds, chains longer than the depth limit, files above the size limit) on the simulated disk; include depth limit default or 1..4, size limit default or small; after every load a fresh loader with the same limits on the same disk must return equal Files, FileOrder, syntax trees and errors. Concurrent class (a quarter of the runs): a Load is in flight as a scheduled task, preempted at every lock and disk call, while another task rewrites a file and invalidates it (or changes the limits, or clears the cache); once both are done a further load on the shared loader must equal a fresh loader. Non-trivial: at least two loads and at least one load that hit the cache on a file that itself has includes, or an invalidation between two loads, or an invalidation that landed inside a load. Distinct: hash of (graph shape, limits, operation sequence, interleaving)."
 }
 func (c11) Enumerated(string) int { return 0 }
 func (c11) Components() ([]string, []string) {
@@ -119,7 +119,7 @@ func (c11) Run(ctx *RunCtx) {
 	var sig []string
 	version := 0
 	for op := 0; op < nops; op++ {
-		kind := c.Weighted("op", []int{5, 2, 3, 1, 1, 2})
+		kind := c.Weighted("op", []int{5, 2, 3, 1, 1, 2, 2})
 		switch kind {
 		case 0, 1:
 			root := w.Files[c.Choose("root", len(w.Files))]
@@ -209,6 +209,65 @@ func (c11) Run(ctx *RunCtx) {
 			ctx.T("SetLimits(depth=%d size=%d)", limits.MaxIncludeDepth, limits.MaxFileSizeBytes)
 			shared.SetLimits(limits)
 			sig = append(sig, fmt.Sprintf("S%d/%d", limits.MaxIncludeDepth, limits.MaxFileSizeBytes))
+		case 6:
+			// a load hit by ONE one-shot disk fault (its own result is C10's
+			// business): whatever the fault was, it must not poison the cache for
+			// the loads that follow.  A fault that leaves the disk or a cached parse
+			// different from the file (torn read = the writer was mid-save, file
+			// deleted right after the stat, file grown after the stat) is followed by
+			// InvalidateFile of that path: the writer finished and the loader was told.
+			root := w.Files[c.Choose("root", len(w.Files))]
+			at := c.Choose("fault-at-call", 16)
+			fk := []simfs.FaultKind{simfs.FEnoent, simfs.FEio, simfs.FTorn, simfs.FStatSmall, simfs.FDelAfter}[c.Choose("fault-kind", 5)]
+			base := w.Disk.Calls
+			hitPath := ""
+			w.Disk.Fault = func(op, p string, idx int) simfs.Fault {
+				if idx-base != at || hitPath != "" {
+					return simfs.Fault{}
+				}
+				switch fk {
+				case simfs.FEio, simfs.FTorn:
+					if op != "read" {
+						return simfs.Fault{}
+					}
+				case simfs.FStatSmall, simfs.FDelAfter:
+					if op != "stat" {
+						return simfs.Fault{}
+					}
+				case simfs.FEnoent:
+					if op != "stat" && op != "read" {
+						return simfs.Fault{}
+					}
+				}
+				hitPath = p
+				return simfs.Fault{Kind: fk, Arg: c.Choose("torn-keep", 40)}
+			}
+			func() {
+				defer func() {
+					if r := recover(); r != nil {
+						ctx.Fail(&Violation{Property: "C11", Oracle: "fresh-loader", Class: "crash-under-fault", Msg: fmt.Sprintf("Load(%s) with a one-shot disk fault at its call %d panicked: %v", root.Path, at, r)})
+					}
+				}()
+				shared.Load(root.Path)
+			}()
+			w.Disk.Fault = nil
+			if len(ctx.Violations) > 0 {
+				return
+			}
+			if hitPath != "" {
+				ctx.Stats.Inc("fault:" + map[simfs.FaultKind]string{simfs.FEnoent: "enoent-oneshot", simfs.FEio: "eio-oneshot", simfs.FTorn: "torn", simfs.FStatSmall: "toctou-grow", simfs.FDelAfter: "toctou-del"}[fk])
+				ctx.T("Load(%s) hit by a one-shot fault (kind %d) on %s at its disk call %d", root.Path, fk, hitPath, at)
+				if fk == simfs.FTorn || fk == simfs.FStatSmall || fk == simfs.FDelAfter {
+					shared.InvalidateFile(hitPath)
+					ctx.T("  InvalidateFile(%s): the writer finished and the loader was told", hitPath)
+				}
+				invalidations++
+				sig = append(sig, fmt.Sprintf("F%d@%d", fk, at))
+			} else {
+				ctx.T("Load(%s) (no disk call %d: fault not fired)", root.Path, at)
+				sig = append(sig, "L"+root.Path)
+			}
+			loads++
 		case 5:
 			// a file appears or disappears on disk (matching the glob includes of
 			// its directory) and the loader is told about that path
